@@ -89,6 +89,15 @@ impl G {
                 self.body.push(json!({"o":"br","d":d}));
                 *budget -= 1;
                 return true;
+            } else if r < 88 {
+                // a reference (null: the branch is taken; not null: it falls through), br_on_null, drop
+                if let Some(d) = self.pick_depth(false) {
+                    let rf = if self.rng.gen_bool(0.5) { "rnull" } else { "rfunc" };
+                    self.body.push(json!({"o":rf}));
+                    self.body.push(json!({"o":"bron","d":d}));
+                    self.body.push(json!({"o":"drop"}));
+                    *budget -= 3;
+                }
             } else if r < 92 {
                 let a = self.pick_depth(false);
                 let b = self.pick_depth(false);
@@ -185,7 +194,7 @@ fn target_kinds(body: &[J], i: usize) -> Vec<&'static str> {
     };
     let c = &body[i];
     match c["o"].as_str().unwrap() {
-        "br" | "br_if" => vec![kind(c["d"].as_u64().unwrap())],
+        "br" | "br_if" | "bron" => vec![kind(c["d"].as_u64().unwrap())],
         "br_table" => {
             let mut v: Vec<&'static str> = c["ds"].as_array().unwrap().iter().map(|x| kind(x.as_u64().unwrap())).collect();
             v.push(kind(c["d"].as_u64().unwrap()));
@@ -214,7 +223,7 @@ fn modes_at(body: &[J], i: usize) -> Vec<&'static str> {
     if ["block", "if", "else"].contains(&o) {
         m.push("semantic_after");
     }
-    if ["br", "br_if", "br_table"].contains(&o) && !target_kinds(body, i).contains(&"loop") && !target_kinds(body, i).contains(&"try") {
+    if ["br", "br_if", "br_table", "bron"].contains(&o) && !target_kinds(body, i).contains(&"loop") && !target_kinds(body, i).contains(&"try") {
         m.push("semantic_after");
     }
     m
@@ -291,7 +300,7 @@ pub fn gen_cases(seed: u64, n: usize, max_len: i32, max_depth: usize, start_id: 
         if theme == 6 {
             for i in 0..body.len() {
                 let o = body[i]["o"].as_str().unwrap();
-                if ["br", "br_if", "br_table"].contains(&o) && modes_at(&body, i).contains(&"semantic_after") && plan.len() < 5 {
+                if ["br", "br_if", "br_table", "bron"].contains(&o) && modes_at(&body, i).contains(&"semantic_after") && plan.len() < 5 {
                     let p = plan.len() as u64;
                     let api = ["iter", "mod", "iter_at", "mod_at", "comp", "comp_at"][rng.gen_range(0..6)];
                     plan.push(json!({"p":p,"site":i,"mode":"semantic_after","api":api,"code":[{"o":"probe","p":p}],"acc":true}));
@@ -359,6 +368,12 @@ pub fn gen_cases(seed: u64, n: usize, max_len: i32, max_depth: usize, start_id: 
                 json!([{"o":"probe","p":p}])
             };
             plan.push(json!({"p":p,"site":i,"mode":mode,"api":api,"code":code,"acc":true}));
+            // now and then withdraw it again (clear_instr_at); a later entry may inject there once more
+            if ["before", "after", "alternate"].contains(&mode) && rng.gen_range(0..10) == 0 {
+                let capi = ["iter", "mod", "comp"][rng.gen_range(0..3)];
+                let p2 = plan.len() as u64;
+                plan.push(json!({"p":p2,"site":i,"mode":"clear","what":mode,"api":capi,"code":[],"acc":true}));
+            }
         }
         if plan.is_empty() {
             continue;
@@ -373,7 +388,8 @@ pub fn gen_cases(seed: u64, n: usize, max_len: i32, max_depth: usize, start_id: 
         // op7 must be unused when it is deleted
         let uses_op7 = body.iter().any(|i| i["o"] == "op" && i["k"] == 7);
         let pre = if pre == "del_imp" && uses_op7 { "" } else { pre };
-        out.push(json!({"id":id,"arity":arity,"nlocals":0,"body":body,"plan":plan,"src":"rand","pre":pre}));
+        let aux_exit = pre != "via_replace" && rng.gen_range(0..6) == 0;
+        out.push(json!({"id":id,"arity":arity,"nlocals":0,"body":body,"plan":plan,"src":"rand","pre":pre,"aux_exit":aux_exit}));
         id += 1;
     }
     out
